@@ -76,6 +76,7 @@ fn main() {
         ("reader", "replay") => reader::replay(&args, &mut s),
         ("reader", "relations") => reader::relations(&args, &mut s),
         ("records", "replay") => records::replay(&args, &mut s),
+        ("records", "record") => records::record(&args, &mut s),
         ("pathcodec", "replay") => codec::path_replay(&args, &mut s),
         ("encoder", "relations") => relations::encoder_relations(&args, &mut s),
         ("encoder", "trace") => relations::encoder_trace(&args, &mut s),
